@@ -24,10 +24,10 @@ def scenarios(tier):
 
     out = []
     out += aave_c04.scenarios(tier)
-    for modname in ("uni_c04", "deribit_c04", "squeeth_c04", "gmx_c04"):
-        try:
-            mod = __import__(f"vf.models.{modname}", fromlist=["scenarios"])
-        except ImportError:
-            continue
-        out += mod.scenarios(tier)
+    from ..models import deribit_c04, nv_scenarios
+
+    out += deribit_c04.scenarios(tier)
+    # Uniswap, Squeeth, GMX v1 / v2: the shared one-step worlds (vf/models/nv.py); on every rejecting path the raw state snapshot
+    # (wallet, position containers, vault fields, holdings, action log length) must equal the pre-call snapshot component-wise
+    out += [s for s in nv_scenarios.scenarios("C04", tier) if s.params["market"] in ("uni", "squeeth", "gmx1", "gmx2") and s.params["op"] is not None]
     return out
